@@ -56,7 +56,20 @@ func firstLine(s string) string {
 
 // Solve races the solvers on script.  If all is true every solver's answer is
 // collected (thorough tier cross-check).
+// Solve races the solvers; an undecided answer that came back well before the time limit (a solver that could not be
+// started or was killed under memory pressure looks like that, and so does an honest quick "unknown") is tried once more.
 func Solve(script string, workdir, name string, timeoutMs int, all bool) SolveResult {
+	r := solveOnce(script, workdir, name, timeoutMs, all)
+	if r.Status != "unsat" && r.Status != "sat" && r.Status != "disagree" && r.Ms < int64(timeoutMs)/2 {
+		time.Sleep(500 * time.Millisecond)
+		r2 := solveOnce(script, workdir, name+".retry", timeoutMs, all)
+		r2.Ms += r.Ms
+		return r2
+	}
+	return r
+}
+
+func solveOnce(script string, workdir, name string, timeoutMs int, all bool) SolveResult {
 	os.MkdirAll(workdir, 0o755)
 	file := filepath.Join(workdir, sanitize(name)+".smt2")
 	os.WriteFile(file, []byte(script), 0o644)
